@@ -246,6 +246,41 @@ theorem saveQueue_spec : ∀ (q : List (Option Key)) (w : World), InvQ w q →
     refine ⟨w2, ws1 ++ ws2, by simp [saveQueue, e1, e2], h2, fun k' => (a2 k').trans (a1 k'), l2.trans l1, c2.trans c1,
       q2.trans q1, ad2.trans ad1, rm2.trans rm1, m2.trans m1⟩
 
+/-- when nothing is pending, the transaction view of every row is the session's view of it -/
+theorem rows_eq_absRow_of_no_pending {w : World} (h : InvQ w []) (k : Key) : w.txn.rows k = absRow w k := by
+  unfold absRow
+  cases ho : w.cache.objs k with
+  | none => rfl
+  | some o =>
+    have h1 := h.objs k o ho
+    have h2 : o.status.pending = false := by
+      cases hp : o.status.pending
+      · rfl
+      · have := h.pendingQueued k o ho hp; simp at this
+    unfold ObjOk at h1
+    cases hs : o.status <;> simp [hs, Status.pending] at h1 h2 ⊢ <;> simp [h1]
+
+/-- the order of the row writes is immaterial: any two enumerations of the pending objects (the queue order of the model, the
+    principal-first order of `_save_principal_objects_`, ...) are both accepted and leave the same rows and link rows -/
+theorem saveQueue_order_irrelevant {w : World} {q1 q2 : List (Option Key)} (h1 : InvQ w q1) (h2 : InvQ w q2) :
+    ∃ w1 ws1 w2 ws2, saveQueue q1 w = .ok (w1, ws1) ∧ saveQueue q2 w = .ok (w2, ws2) ∧
+      (∀ k, w1.txn.rows k = w2.txn.rows k) ∧ w1.txn.links = w2.txn.links ∧
+      (∀ k o, w1.cache.objs k = some o → o.status.pending = false) ∧
+      (∀ k o, w2.cache.objs k = some o → o.status.pending = false) := by
+  obtain ⟨w1, ws1, e1, i1, a1, l1, _⟩ := saveQueue_spec q1 w h1
+  obtain ⟨w2, ws2, e2, i2, a2, l2, _⟩ := saveQueue_spec q2 w h2
+  refine ⟨w1, ws1, w2, ws2, e1, e2, ?_, l1.trans l2.symm, ?_, ?_⟩
+  · intro k
+    rw [rows_eq_absRow_of_no_pending i1 k, rows_eq_absRow_of_no_pending i2 k, a1 k, a2 k]
+  · intro k o ho
+    cases hp : o.status.pending
+    · rfl
+    · have := i1.pendingQueued k o ho hp; simp at this
+  · intro k o ho
+    cases hp : o.status.pending
+    · rfl
+    · have := i2.pendingQueued k o ho hp; simp at this
+
 /-! ### the many-to-many lemma -/
 
 /-- `add_m2m` of fresh, distinct pairs succeeds and adds exactly these link rows -/
